@@ -162,7 +162,7 @@ def run(tier):
         tested = op[1] + ("Assign" if op[0] == "assign" else "")
         others = [x for x in names if x != tested]
         first = others[(i * 7 + 3) % len(others)]
-        second = others[(i * 11 + 5) % len(others)]
+        second = [x for x in others if x != first][(i * 11 + 5) % (len(others) - 1)]
         combos.append((op, ((first, "before"),), "attr"))
         if tier == "thorough" or i % 4 == common.seed() % 4:
             combos.append((op, ((first, "after"),), "attr"))
